@@ -49,13 +49,19 @@ namespace hgraph
                 for (auto &bank : banks) { bank.bind_graph_layout(graph_layout); }
             }
 
-            void stop_generation(std::size_t bank_index, std::size_t count) noexcept
+            void stop_generation(std::size_t bank_index, std::size_t count,
+                                 FirstExceptionRecorder *failures = nullptr) noexcept
             {
                 auto &bank = banks[bank_index];
                 for (std::size_t index = count; index-- > 0;)
                 {
                     auto *entry = bank.entry_at(index);
                     if (entry == nullptr || !entry->graph.has_value() || !entry->graph.view().started()) { continue; }
+                    if (failures != nullptr)
+                    {
+                        failures->capture([&] { entry->graph.view().stop(); });
+                        continue;
+                    }
                     static_cast<void>(fallback_on_exception(false, [&] {
                         entry->graph.view().stop();
                         return true;
@@ -459,7 +465,11 @@ namespace hgraph
         {
             auto typed = view.as<OrderedReduceNodeView>();
             auto &storage = *MemoryUtils::cast<OrderedReduceStorage>(typed.internal_storage());
-            storage.stop_generation(storage.current_bank, storage.live_count);
+            // Best-effort, like Graph::stop: every combiner gets its stop attempt and
+            // the first failure is re-raised afterwards, so it reaches the caller.
+            FirstExceptionRecorder exceptions;
+            storage.stop_generation(storage.current_bank, storage.live_count, &exceptions);
+            exceptions.rethrow_if_any();
         }
 
         void validate_ordered_reduce_spec(
